@@ -72,3 +72,27 @@ func TestXAEAD(t *testing.T) {
 		t.Fatalf("got %x", got)
 	}
 }
+
+// The incremental Tagger equals the one-shot Tag for every prefix length and several AD lengths.
+func TestTagger(t *testing.T) {
+	pk := PolyKey(seq(0x80, 32), h("000000000001020304050607"))
+	ct := make([]byte, 700)
+	for i := range ct {
+		ct[i] = byte(i*13 + 5)
+	}
+	for _, an := range []int{0, 1, 13, 16, 17, 48, 600} {
+		ad := seq(7, an)
+		tg := NewTagger(pk, ad, ct)
+		for _, n := range []int{0, 1, 15, 16, 17, 31, 32, 33, 100, 256, 257, 511, 640, 699, 700} {
+			if got, want := tg.Tag(n), Tag(pk, ad, ct[:n]); got != want {
+				t.Fatalf("ad %d n %d: %x != %x", an, n, got, want)
+			}
+		}
+		tg = NewTagger(pk, ad, ct)
+		for n := 0; n <= 300; n++ {
+			if got, want := tg.Tag(n), Tag(pk, ad, ct[:n]); got != want {
+				t.Fatalf("ad %d n %d: %x != %x", an, n, got, want)
+			}
+		}
+	}
+}
